@@ -116,7 +116,7 @@ class StmtMixin:
         has_call = any(isinstance(n, ast.Call) for n in ast.walk(s))
         if any(isinstance(n, (ast.Return, ast.Break, ast.Continue, ast.Yield, ast.YieldFrom)) for n in ast.walk(s)):
             raise Untranslatable(f"cannot abstract a statement with control flow: {why}")
-        for n in assigned_names([s]):
+        for n in assigned_names([s], st.env):
             st.env[n] = self.fresh_sv("abs_" + n, fr.contract.sorts.get(n, "any") if fr.contract else "any")
         if has_call:
             st.heap = {}
